@@ -1047,7 +1047,81 @@ def check_C08(chk):
                       BASE_ASSUME + ["the in-ram view is read through hook H1 (verif_snapshot) and overlaid on the visible file by the harness"])
 
 
-CHECKS = {"C08": check_C08, "C10": check_C10, "C11": check_C11, "C12": check_C12, "C17": check_C17, "C07": check_C07, "C18": check_C18, "C13": check_C13, "C06": check_C06, "C04": check_C04, "C05": check_C05, "C01": check_C01, "C02": check_C02, "C03": check_C03, "C16": check_C16}
+def check_C09(chk):
+    """qcow2 specification conformance: reads foreign images, formats valid ones"""
+    rng = random.Random(chk.seed * 31 + 9)
+    quick = chk.tier == "quick"
+    scens = fam_regress()
+    cbs = [9, 10, 12, 14, 16] if quick else list(range(9, 22))
+    ros = [0, 2, 4, 6] if quick else list(range(0, 7))
+    k = 0
+    # (a) independently built images, opened with default and custom parameters
+    for cb in cbs:
+        for ro in ros:
+            for version in ((3,) if quick and (cb + ro) % 3 else (3, 2)):
+                if version == 2 and ro != 4:
+                    continue
+                for defaults in (True, False):
+                    k += 1
+                    bsb = rng.choice([9, 9, 10, 12]) if cb >= 12 else rng.choice([9, min(cb, 10)])
+                    if cb >= 16:
+                        bsb = 12
+                    vc = rng.choice([24, 40, 70]) if cb <= 12 else (12 if cb <= 15 else 5)
+                    l2n = (1 << cb) // 8
+                    need_l1 = -(-vc // l2n)
+                    geo = dict(cb=cb, ro=ro, bsb=bsb, vclusters=vc)
+                    if defaults:
+                        geo["params"] = {}
+                    else:
+                        sb = rng.randrange(bsb, min(cb, 12) + 1)
+                        geo["params"] = {"l2": [sb, rng.choice([2, 3, 8]) << sb], "rb": [sb, rng.choice([2, 4]) << sb]}
+                    kinds = ("data", "zero", "zero_prealloc", "comp") if version == 3 else ("data", "comp")
+                    top = S.image_shaped(rng, geo, 1, frac=rng.choice([0.3, 0.6]), kinds=kinds, version=version,
+                                         l1_entries=rng.choice([None, None, max(1, need_l1 - 1)]) if need_l1 > 1 else None)
+                    images = [top]
+                    if k % 3 == 0:
+                        images.append(S.image_shaped(rng, geo, 2, frac=0.7, kinds=("data", "zero") if version == 3 else ("data",),
+                                                     vclusters=vc + rng.choice([0, -vc // 3, 3]), version=version))
+                    bpc = 1 << (cb - bsb)
+                    steps = [{"op": "info"}, {"op": "mapall"}, {"op": "sweep"}]
+                    if k % 2 == 0:
+                        c = rng.randrange(vc)
+                        steps += [{"op": "write", "gb": c * bpc + rng.randrange(bpc), "n": 1}, {"op": "sweep"}, {"op": "flush"},
+                                  {"op": "reopen"}, {"op": "mapall"}, {"op": "sweep"}]
+                    scens.append(S.mk(f"c09b-cb{cb}-ro{ro}-v{version}-{'def' if defaults else 'cus'}", geo, images, steps))
+    # (b) what the library formats, over virtual sizes, cluster sizes, refcount widths, block sizes
+    sizes_small = [1, 7, 64, 100]
+    for cb in cbs:
+        for ro in ros:
+            for bsb in ([9] if quick else [9, 10, 11, 12]):
+                if bsb > cb:
+                    continue
+                vc = rng.choice(sizes_small) if cb <= 14 else rng.choice([1, 5])
+                geo = dict(cb=cb, ro=ro, bsb=bsb, vclusters=vc, params={})
+                bpc = 1 << (cb - bsb)
+                steps = [{"op": "info"}, {"op": "mapall"}, {"op": "write", "gb": 0, "n": 1},
+                         {"op": "write", "gb": (vc - 1) * bpc, "n": bpc}, {"op": "sweep"}, {"op": "flush"}, {"op": "reopen"}, {"op": "sweep"}]
+                scens.append(S.mk(f"c09f-cb{cb}-ro{ro}-bs{bsb}", geo, [S.image_plain(geo, "format")], steps))
+            # big virtual sizes: structure only (the flat model gets no guest blocks)
+            for big in ([1 << 20] if quick else [1 << 16, 1 << 20, 1 << 24]):
+                if (big << cb) > (1 << 44):
+                    continue
+                geo = dict(cb=cb, ro=ro, bsb=9, vclusters=big, params={})
+                scens.append(S.mk(f"c09F-cb{cb}-ro{ro}-n{big}", geo, [S.image_plain(geo, "format")], [{"op": "info"}], format_only=True))
+    res, st = Q.run_batch(scens, chk.wd, known=chk.known_tags(), par=14)
+    chk.consume(res, st, props=("C09", "C01", "C02", "C03", "C07", "OPEN", "PANIC"))
+    for name in res:
+        chk.nontrivial.add(name)
+    return chk.finish("model_checking",
+                      "independently built images (cluster_bits 9-21 x refcount_order 0-6 x v2/v3; data, zero, preallocated zero, compressed incl. "
+                      "straddling, L1 shorter than maximal, backing chains shorter/longer) opened with default and custom parameters: get_mapping() of "
+                      "every guest cluster vs the spec's L2 reading (Inv_C09map), read_at sweeps vs FlatDisk, derived geometry vs spec/Geometry.tla "
+                      "(Inv_C09info); images formatted by the library over (virtual size, cluster_bits, refcount_order, block size) must satisfy "
+                      "WellFormed and Exact (Inv_C09fmt) and be usable",
+                      BASE_ASSUME + ["inflate correctness is observed through tokens only"])
+
+
+CHECKS = {"C09": check_C09, "C08": check_C08, "C10": check_C10, "C11": check_C11, "C12": check_C12, "C17": check_C17, "C07": check_C07, "C18": check_C18, "C13": check_C13, "C06": check_C06, "C04": check_C04, "C05": check_C05, "C01": check_C01, "C02": check_C02, "C03": check_C03, "C16": check_C16}
 
 
 def main():
